@@ -116,6 +116,11 @@ EXTRACT_SETS = {
     'bbspec': ('ExtractSpec.v', ['zconv.ml', 'bbspec_ext.ml', 'bbspec.ml'], ['Base', 'Spec']),
 }
 
+# further executables: tools/exes_*.json = {name: [Extract file, [driver sources], [vo dirs]]}
+for _f in sorted(glob.glob(os.path.join(VERIF, 'tools', 'exes_*.json'))):
+    for _k, _v in json.load(open(_f)).items():
+        EXTRACT_SETS[_k] = (_v[0], _v[1], _v[2])
+
 ML_ORDER_HINT = ['BinNums', 'Datatypes', 'Bool', 'Specif', 'Decimal', 'Hexadecimal', 'Number', 'Nat', 'PeanoNat',
                  'BinPosDef', 'BinPos', 'BinNatDef', 'BinNat', 'BinIntDef', 'BinInt', 'Ascii', 'String', 'List']
 
